@@ -1,5 +1,5 @@
 PROP = {
-    "modules": ["Discv5Model.Props.C12"],
+    "modules": ["Discv5Model.Props.C12", "Discv5Model.Props.C12Handler"],
     "lemma_modules": ["Discv5Model.Proofs.ServicePolicy", "Discv5Model.Proofs.ServiceVals"],
     "engines": [{"name": "service", "quick": 150, "thorough": 15000}, {"name": "handler", "quick": 40, "thorough": 800}],
     "rule": "service engine, profile C12: one Service (IPv4 / IPv6 / dual stack, accept-all or rejecting table filter, "
